@@ -795,7 +795,11 @@ fn run_query(ctx: &Ctx, rep: &mut Report, sc: &Scenario, q: &Query, graph: &Netw
 				// route. Observation, not a violation: see DESIGN.md §6 C16.
 				rep.count("ldk_debug_assert_used_liquidity_observed");
 			} else {
-				ctx.violate(rep, "V0-panic", &format!("panic in find_route: {}", vcore::canon(&p)), sc, q, p);
+				// (a blinded payee one of whose introduction nodes is a peer behind a supplied first hop is the setting of
+				// the known finding F23; the signature says so, so that a panic elsewhere keeps its own)
+				let intro_behind_first_hop = q.first.as_ref().map(|f| q.blinded.iter().any(|b| f.iter().any(|h| h.peer == b.intro))).unwrap_or(false);
+				let setting = if intro_behind_first_hop { " with a blinded payee introduced by a first-hop peer" } else { "" };
+				ctx.violate(rep, "V0-panic", &format!("panic in find_route{}: {}", setting, vcore::canon(&p)), sc, q, p);
 			}
 			None
 		},
@@ -823,6 +827,11 @@ fn run_query(ctx: &Ctx, rep: &mut Report, sc: &Scenario, q: &Query, graph: &Netw
 					rep.count("completeness_slack_confirmed_unreachable");
 					if !q.blinded.is_empty() {
 						rep.count("completeness_blinded_confirmed_unreachable");
+						// the library cannot express a path that starts inside a blinded tail (a path needs one
+						// unblinded hop) and refuses: a documented refusal, counted
+						if q.blinded.iter().enumerate().any(|(i, b)| b.intro == q.payer && !q.failed_blinded.contains(&(i as u64)) && b.pol().min <= q.amt && q.amt <= b.pol().max) {
+							rep.count("refusals_payee_only_reachable_through_paths_introduced_by_the_payer");
+						}
 					}
 				}
 			} else if fixed_scorer && rp.max_total_routing_fee_msat.is_none() && rp.payment_params.max_total_cltv_expiry_delta >= 1008 {
@@ -956,7 +965,7 @@ fn validate(ctx: &Ctx, rep: &mut Report, sc: &Scenario, q: &Query, route: &Route
 			}
 		}
 		if path.hops.len() > pp.max_path_length as usize {
-			ctx.violate(rep, "V1-path-length", if tail.is_some() { "path to a blinded payee has more unblinded hops than max_path_length" } else { "path longer than max_path_length" }, sc, q, format!("len={}", path.hops.len()));
+			ctx.violate(rep, "V1-path-length", if tail.is_some() && q.first.as_ref().map(|f| q.blinded.iter().any(|b| f.iter().any(|h| h.peer == b.intro))).unwrap_or(false) { "path to a blinded payee introduced by a first-hop peer has more unblinded hops than max_path_length" } else if tail.is_some() { "path to a blinded payee has more unblinded hops than max_path_length" } else { "path longer than max_path_length" }, sc, q, format!("len={}", path.hops.len()));
 		}
 		let fin = fin_of(path);
 		total = total.saturating_add(fin);
